@@ -1,2 +1,57 @@
-(* C20 placeholder *)
-From LV Require Import Base.Bytes.
+(* C20  A stalled server cannot block a send beyond the configured timeout.  Statements only.
+   The clock is not in the model: what is proved is the logic around it, for every state and script of the
+   client model (Model/Client.v, tied to the real blocking client by C05/C15 and by C20's stall matrix):
+   a stall is a blocked read; a blocked read ends the exchange at once with the one error that is flagged
+   as a timeout; the failing operation then performs exactly one more exchange (QUIT) and leaves the
+   connection broken and shut, and a shut connection refuses every further command without touching the
+   network.  Hence at most two waits of the configured timeout per failing operation: the bound 2T that the
+   check measures on the real client.  PARTIAL: the asynchronous clients have no I/O deadline (F20). *)
+From Coq Require Import Strings.String.
+From LV Require Import Base.Bytes Base.Str Base.Utf8 Base.Res Base.Base64
+  Model.Codec Model.Response Model.ServerInfo Model.Auth Model.Client Proofs.ClientProofs Proofs.TimeoutProofs.
+
+(* no complete line buffered and the peer has not closed: the read ends at once, as a timeout *)
+Theorem C20_stall_is_a_timeout : forall s : cst,
+  closed s = false -> split_lf (inbuf s) = None ->
+  read_response s = (Err (mkErr ENetwork None [] true), upd_in s []).
+Proof. exact blocked_read. Qed.
+
+(* and nothing else is ever flagged as a timeout *)
+Theorem C20_timeout_only_when_blocked : forall (s : cst) e s',
+  read_response s = (Err e, s') -> etimeout e = true -> e = mkErr ENetwork None [] true /\ inbuf s' = [].
+Proof. exact timeout_only_when_blocked. Qed.
+
+(* a send that fails after its first write - for whatever reason, a timeout included - writes exactly one
+   more unit, QUIT, and leaves the connection broken and shut (same statement as C05_send's failure branch) *)
+Theorem C20_failed_send_one_more_exchange : forall (env : envelope) (msg : bytes) (s : cst),
+  shut s = false -> panic s = false ->
+  match send env msg s with
+  | (Err e, s') =>
+      (s' = s /\ local_refusal e) \/
+      (exists k, (1 <= k <= length (expected_units env msg))%nat /\
+         new_units s s' (firstn k (expected_units env msg) ++ [ULine QUIT]) /\ shut s' = true /\ panic s' = true)
+  | _ => True
+  end.
+Proof.
+  intros env msg s Hs Hp. pose proof (send_units env msg s Hs Hp) as H.
+  destruct (send env msg s) as [[r|e|] s']; auto.
+  destruct H as [(A & B & _)|(A & _)]; [left; auto|right; exact A].
+Qed.
+
+(* the stalled connection is never used again: once shut, every command fails immediately, nothing is
+   written or read *)
+Theorem C20_shut_connection_refuses : forall line (s : cst), shut s = true -> command line s = (Err e_net, s).
+Proof. exact shut_refuses. Qed.
+
+Example C20_example :
+  let sc := [mkChunk (bs "220 srv" ++ CRLF) false; mkChunk (bs "250 srv" ++ CRLF) false; mkChunk (bs "250") false; mkChunk [] false] in
+  match connect (bs "x") sc with
+  | (Ok _, s) => exists e s', send (mkEnv None [bs "a@b"]) (bs "hi") s = (Err e, s') /\ etimeout e = true /\ panic s' = true /\ shut s' = true
+  | _ => False
+  end.
+Proof. cbn. eexists; eexists. repeat split; reflexivity. Qed.
+
+Print Assumptions C20_stall_is_a_timeout.
+Print Assumptions C20_timeout_only_when_blocked.
+Print Assumptions C20_failed_send_one_more_exchange.
+Print Assumptions C20_shut_connection_refuses.
